@@ -19,7 +19,7 @@ FUNCTIONS = ["debian._deb822_repro.parsing.Deb822ParagraphToStrWrapperMixin.__se
              "debian._deb822_repro.parsing.Deb822NoDuplicateFieldsParagraphElement.remove_kvpair_element",
              "debian._deb822_repro.parsing.Deb822ValueElement.add_final_newline_if_missing"]
 STUBS = []
-ASSUMPTIONS = ["new values are non-empty, without leading/trailing whitespace and without line-boundary characters except the '\\n' separating the two lines of a multi-line value",
+ASSUMPTIONS = ["new single-line values are non-empty (the first line of a two-line value may be empty), without leading/trailing whitespace and without line-boundary characters except the '\\n' separating the two lines of a multi-line value",
                "documents are valid (no error tokens, unique field names per paragraph)"]
 OUTSIDE = ["documents with error tokens or duplicate fields (C10 covers duplicates)", "values longer than 3 symbolic characters", "more than two operations"]
 
@@ -176,7 +176,9 @@ def h_edit(params, pi: int, op: int, ki: int, v: str, w: str, pi2: int, op2: int
     two_line = params.get("two_line", False)
     assume(len(v) == params["vlen"])
     assume(text_ok(v))
-    assume(v == v.strip() and len(v) > 0)
+    assume(v == v.strip())
+    if not two_line:
+        assume(len(v) > 0)
     if two_line:
         assume(len(w) == params["wlen"])
         assume(text_ok(w) and len(w) > 0 and w.strip() != "" and w == w.rstrip())
@@ -218,7 +220,7 @@ def partitions(tier, seed):
                           reach=["replaced", "added"], bounds="layout %d: set/add on any paragraph and key, single-line value of %d arbitrary chars" % (d, vlen)))
         P.append(dict(name="del/doc%d" % d, harness="h_edit", params=dict(doc=d, vlen=1, ops=[1]), budget=60 if q else 600,
                       reach=["deleted"], bounds="layout %d: delete on any paragraph and key" % d))
-        for vlen, wlen in (((1, 1),) if q else ((1, 1), (2, 1), (1, 2), (2, 2))):
+        for vlen, wlen in (((1, 1), (0, 1)) if q else ((1, 1), (0, 1), (0, 2), (2, 1), (1, 2), (2, 2))):
             if q and d not in (0, 1, 2, 3):
                 continue
             P.append(dict(name="set2l/doc%d/v%d-w%d" % (d, vlen, wlen), harness="h_edit", params=dict(doc=d, vlen=vlen, wlen=wlen, two_line=True, ops=[0]),
